@@ -883,7 +883,7 @@ public:
         -> basic_inplace_string&
     {
         auto* f = to_mutable_iterator(first);
-        auto* l = etl::min(to_mutable_iterator(last), f + count2);
+        auto* l = f + etl::min(count2, static_cast<size_type>(etl::distance(first, last)));
         detail::str_replace(f, l, ch);
         return *this;
     }
